@@ -14,10 +14,12 @@ afterwards).
 """
 import json, os, shutil, subprocess, sys, re
 
-ROOT = "/verif"
-WT = "/tmp/confirm-wt"
-TARGET = "/tmp/confirm-target"
-DEMO = "/tmp/confirm-demo"
+ROOT = os.path.dirname(os.path.abspath(__file__))
+REPO = os.environ.get("CEL_REPO", "/repo")   # a lane may point the tools at its own worktree of /repo
+LANE = os.environ.get("CEL_LANE", "")          # parallel lanes use their own scratch directories
+WT = "/tmp/confirm-wt" + LANE
+TARGET = "/tmp/confirm-target" + LANE
+DEMO = "/tmp/confirm-demo" + LANE
 ENV = dict(os.environ, CARGO_NET_OFFLINE="true", CARGO_TARGET_DIR=TARGET)
 
 
@@ -26,14 +28,14 @@ def sh(cmd, **kw):
 
 
 def ensure_wt():
-    head = sh("git -C /repo rev-parse HEAD").stdout.strip()
+    head = sh(f"git -C {REPO} rev-parse HEAD").stdout.strip()
     if os.path.isdir(WT):
         cur = sh(f"git -C {WT} rev-parse HEAD").stdout.strip()
         sh(f"git -C {WT} checkout -q -- . ")
         if cur != head:
             sh(f"git -C {WT} checkout -q --detach {head}")
     else:
-        r = sh(f"git -C /repo worktree add --detach {WT} {head}")
+        r = sh(f"git -C {REPO} worktree add --detach {WT} {head}")
         assert r.returncode == 0, r.stdout
     os.makedirs(DEMO + "/src", exist_ok=True)
     open(DEMO + "/Cargo.toml", "w").write(f"""[package]
@@ -48,7 +50,7 @@ chrono = "0.4"
 serde = {{ version = "1", features = ["derive"] }}
 serde_json = "1"
 """)
-    shutil.copy("/repo/Cargo.lock", DEMO + "/Cargo.lock")
+    shutil.copy(REPO + "/Cargo.lock", DEMO + "/Cargo.lock")
 
 
 def run_demo():
@@ -110,7 +112,7 @@ def main():
     meta["confirmed_by_me"] = {
         "how": "scratch worktree of /repo HEAD under /tmp (removed afterwards): patch applied; pinned suite run; demonstration built against the worktree and run with and without the patch",
         "ran": ran,
-        "repo_head": sh("git -C /repo rev-parse --short HEAD").stdout.strip(),
+        "repo_head": sh(f"git -C {REPO} rev-parse --short HEAD").stdout.strip(),
     }
     old = {}
     if os.path.exists(dest + "/meta.json"):
@@ -121,7 +123,7 @@ def main():
     for c in missed:
         res[c.split()[0]] = "silent"
     meta["checks"] = res
-    meta["what_i_ran"] = f"git -C /repo apply patch.diff; ./check <id> --tier quick for each id in checks; git -C /repo checkout -- ."
+    meta["what_i_ran"] = f"git -C {REPO} apply patch.diff; ./check <id> --tier quick for each id in checks; git -C {REPO} checkout -- ."
     json.dump(meta, open(dest + "/meta.json", "w"), indent=1, ensure_ascii=False)
     print("filed", dest)
     return 0
